@@ -8,18 +8,18 @@ CHECKS = {
  "C03": ("G", "best_solution is compared with the last recorded generation (membership and optimality in the task's direction) on seeded simulated runs biased to plateau objectives (ties), max tasks and pooled modes with permuted completion orders.", "7 C03"),
  "C04": ("S", "An executable reference model of the documented stop rule is compared with the number of cycles the real optimize() loop executes on scripted rate histories whose thresholds sit exactly on rates / nextafter neighbours / |changes| (scripted optimizer under the simulator), plus the same identities observed on real-optimizer runs.", "7 C04"),
  "C05": ("G", "Every argument the objective receives - discarded candidates and calls made inside simulated worker threads/processes included - is checked at the seam against the membership predicate.", "7 C05"),
- "C06": ("G", "Any exception escaping optimize() on a valid task/config is keyed by (optimizer, exception type, raising function): strict on continuous families, per (optimizer, encoding) pair baseline on integer-coded families; no deadlock/hang in pooled modes.", "7 C06"),
- "C07": ("P", "Two serial runs on equal tasks carrying the same integer seed, separated by an ambient perturbation of both global generators (other code draws / reseeds, an unrelated optimizer runs), must give identical results; thorough tier repeats digests in a fresh interpreter under another PYTHONHASHSEED.", "7 C07"),
+ "C06": ("G", "Any exception escaping optimize() on a valid task/config is keyed by (optimizer, exception type, raising function): strict on continuous families, per (optimizer, encoding) pair baseline on integer-coded families; boundary parameter values accepted by the validators are enumerated in turn; 11 kinds of invalid call must be rejected with ValueError before any cycle, and a valid call on the same instance afterwards must behave like on a fresh instance.", "7 C06"),
+ "C07": ("P", "Two serial runs on equal tasks carrying the same integer seed, separated by an ambient perturbation of both global generators (other code draws / reseeds, an unrelated optimizer runs), must give identical results; run A of a sample of jobs (all with hash-salt-sensitive inputs) is repeated in a fresh interpreter under another PYTHONHASHSEED (runs in different processes).", "7 C07"),
  "C08": ("P", "A used instance (history of 1-2 earlier optimize() calls ended by different stop criteria, same or other task) is compared with a fresh instance under the same simulated entropy and ambient generator state.", "7 C08"),
- "C09": ("P", "Config and task dumps are compared before/after optimize() on fault-free runs and under a systematic crash-point sweep (objective failure injected at evaluation #k for k over initialisation, first cycle, a geometric ladder and the last evaluation), invalid-argument calls and simulated worker-process crashes, in all modes.", "7 C09"),
+ "C09": ("P", "Config and task dumps are compared before/after optimize() on fault-free runs and under a systematic crash-point sweep (objective failure injected at evaluation #k for k over initialisation, first cycle, a geometric ladder and the last evaluation), invalid-argument calls and simulated worker-process crashes, in all modes; plus the same before/after comparison (per-variable fields included) on 3000 plain engine-G runs with instance histories.", "7 C09"),
  "C10": ("G", "Size of every recorded generation vs population_size (exact except the three variable-population optimizers) over population scales 1x/1.5x/2x/3x, all modes and worker counts.", "7 C10"),
  "C11": ("G", "Pooled modes only: exactly-once at the pool boundary (per-future retrieval counts, multiset equality of returned results), serial-equivalence of pooled greedy selection, pairwise-distinct initial points and no replayed worker random stream, plus the C01/C02/C03/C10 oracles, under seeded schedules (5 policies), worker counts 1-16 and stall / completion-order faults.", "7 C11"),
  "C12": ("P", "max f and min -f are executed under the same simulated entropy and compared generation by generation (equal positions, exactly negated costs) for the direction-agnostic optimizers.", "7 C12"),
- "C15": ("G", "Every recorded generation is compared at the end of the run with an independent deep snapshot taken when it was recorded (core and extra fields); trend utilities are checked against a direct ranking as a by-product.", "7 C15"),
+ "C15": ("G", "Every recorded generation is compared at the end of the run with an independent deep snapshot taken when it was recorded (core and extra fields); trend utilities are checked against a direct ranking as a by-product, also after they were called on results of earlier runs that were then dropped.", "7 C15"),
  "C17": ("G", "Best cost per generation must be monotone in the task's direction for the 67 optimizers classified structurally elitist from source, on seeded simulated runs incl. ties and stream faults.", "7 C17"),
  "C18": ("P", "construct() without config; optimize() must refuse before any work (event log); set_config_parameters accepts/rejects exactly what the config model does; run(set_config_parameters(d)) vs run(ctor(Config(**d))) under equal seeds and schedules.", "7 C18"),
- "C19": ("S", "HyperTuner.execute/resolve on the simulated fork pool with a scripted optimizer that reports every run from inside the simulated workers: exactly-once per (grid point, trial) with that point's parameters, table contents, mean-optimal selection in the task's direction, resolve parameters.", "7 C19"),
- "C20": ("S", "Multitask on nested simulated pools with scripted optimizers/tasks of distinct classes: (algorithm, task, mode, trial) exactly-once matrix for all documented shapes of modes, rejection of unknown modes, table shape, export files under a simulated clock.", "7 C20"),
+ "C19": ("S", "HyperTuner.execute/resolve on the simulated fork pool with a scripted optimizer that reports every run from inside the simulated workers: exactly-once per (grid point, trial) with that point's parameters, table contents, mean-optimal selection in the task's direction, resolve parameters; also after an earlier execute() on the same tuner.", "7 C19"),
+ "C20": ("S", "Multitask on nested simulated pools with scripted optimizers/tasks of distinct classes: (algorithm, task, mode, trial) exactly-once matrix for all documented shapes of modes, rejection of unknown modes, table shape with row k = trial k, export files under a simulated clock; optimizer objects may have been used stand-alone in another mode before.", "7 C20"),
 }
 NOT_BUILT = {}
 NA = {
